@@ -26,6 +26,23 @@ claimed.update({
    technique="explicit enumeration of lists x probes x permutations against a documented-rule reference",
    design="5/C16"),
 })
+claimed.update({
+ "C08": dict(
+   text="Explicit-state breadth-first search over editing-operation histories on real NodeList values: ~100 operations (Union/Intersect/Add/RelateNodeListAtID with 8 library lists, RemoveNodes of every id subset, RelateNodeAtID, every extraction whose result becomes the next state) from every small well-formed initial list, depth 2 (thorough 4 or deadline), canonical-key de-duplication; well-formedness in every state, normalisation after merge/removal/extraction, RemoveNodes against a triple-set model.",
+   note="Trusted: 20-line WellFormed/Normalised predicates and the removal model; successor states are rebuilt by replaying the history on fresh instances; premise (argument still well-formed) re-checked per step.",
+   technique="explicit-state BFS over operation histories with canonical state hashing, invariant in every state",
+   design="5/C08"),
+ "C13": dict(
+   text="Bounded exhaustive check of Node/Edge/NodeList equality and Node checksum on a reflection-generated value set (empty, sparse, fully populated bases x every single-field deviation incl. nested persons/external references/hashes, permutations of every set-valued list, sub-second date changes, crafted separator values): all ordered pairs for reflexivity, symmetry, checksum agreement, discrimination against a canonical-content reference and order-insensitivity; all triples for transitivity.",
+   note="Trusted: the canonical-content reference (gen.Canon). Two known findings (unescaped separators, undelimited hash-map concatenation) are listed in known_findings.json; nil-vs-empty collections are C12's copy clause.",
+   technique="explicit enumeration of all pairs/triples of a reflection-generated value set against a content reference",
+   design="5/C13"),
+ "C14": dict(
+   text="Bounded exhaustive check of Node.Diff on ordered pairs (base, base + <=2 (thorough 3) single-field deviations generated by reflection, both directions; bases empty/sparse/full/full-with-duplicates): nil iff no attribute differs, DiffCount equals the number of differing attributes (set semantics, dates to the second), and rebuilding the first node from Removed/Added yields the second node's attributes; self and equal-copy diffs are nil.",
+   note="Trusted: per-attribute content reference and the rebuild procedure (remove Removed, then apply Added).",
+   technique="explicit enumeration of node pairs by reflection-driven deviations against count and reconstruction models",
+   design="5/C14"),
+})
 pending = {}
 all_ids = ["C%02d" % i for i in range(1, 21)]
 checks = []
